@@ -330,11 +330,33 @@ def drive(tr, text, kind, must_reject=False):
     return tp
 
 
+def drive_helpers_direct(tr, rng):
+    """the two radial helpers are public functions (PositionVoronoi calls them with whatever point_radii it was given): integer arrays,
+    lists and tuples of ints, float32, views and mixed lists; the radii keep odd and even spacings"""
+    T = rng.randint(1, 8)
+    ints = np.cumsum([rng.randint(1, 9) for _ in range(T)])
+    form = rng.choice(["int64", "int32", "list_of_ints", "tuple_of_ints", "float32", "view", "mixed_list", "float64"])
+    radii = {"int64": ints.astype(np.int64), "int32": ints.astype(np.int32), "list_of_ints": [int(x) for x in ints],
+             "tuple_of_ints": tuple(int(x) for x in ints), "float32": ints.astype(np.float32), "view": np.repeat(ints * 0.5, 3)[::3],
+             "mixed_list": [int(x) if k % 2 else float(x) + 0.25 * (k == 0) for k, x in enumerate(ints)], "float64": ints * 0.1}[form]
+    REC.begin_case({"radii": np.asarray(radii).tolist(), "helper_form": form}, cls=f"helpers form={form}")
+    try:
+        keep = np.array(radii, dtype=float)
+        tr.get_increments(radii)
+        tr.get_between_radii(radii)
+        tr.get_between_radii(radii, include_zero=True)
+        REC.check("C16.helper_input_untouched", np.array_equal(keep, np.asarray(radii, dtype=float)), {"before": keep, "after": np.asarray(radii)})
+    except Exception as e:
+        REC.crashed("C16.call_raised", e)
+
+
 def run_random(tr, spec):
     rng = random.Random(spec["rseed"])
     for it in range(spec["count"]):
         text, kind = gen_text(rng)
         drive(tr, text, kind)
+        if it % 4 == 0:
+            drive_helpers_direct(tr, rng)
         if it % 10 == 0:
             text, _ = gen_list(rng, negative=True)
             drive(tr, text, "negative", must_reject=True)
@@ -390,4 +412,11 @@ def run_shard(spec):
 
 def replay(case):
     tr = install()
+    if "helper_form" in case:
+        r = case["radii"]
+        radii = {"int64": np.array(r, dtype=np.int64) if all(float(x).is_integer() for x in r) else np.array(r), "int32": np.array(r).astype(np.int32),
+                 "tuple_of_ints": tuple(r), "float32": np.array(r, dtype=np.float32)}.get(case["helper_form"], r)
+        REC.begin_case(case)
+        tr.get_increments(radii); tr.get_between_radii(radii); tr.get_between_radii(radii, include_zero=True)
+        return
     drive(tr, case["text"], case.get("kind", "replay"), must_reject=(case.get("kind") == "negative"))
